@@ -94,6 +94,7 @@ Definition match_arg (f : frame) (k : ekind) : option nat :=
   | FTimerReg _ n, KTimerReg n' _ => if Nat.eqb n n' then Some 0 else None
   | FScript _ _ (OCache key _ :: _), KCacheGet key' _ => if Nat.eqb key key' then Some 0 else None
   | FScript _ _ (OCache _ _ :: _), KFail _ false => Some 1
+  | FScript _ _ (OCache _ _ :: _), KSkip => Some 2
   | FScript _ _ (OFail :: _), KSkip => Some 0
   | FScript _ _ (OFail :: _), KFail _ false => Some 1
   | FScript _ _ (ORetry :: _), KSkip => Some 0
